@@ -29,6 +29,8 @@ pub enum Case {
     Cell { prop: String, index: usize },
     /// C11: the same history with and without a refused send injected before op `at`
     Inject { cfg: Cfg, ops: Vec<Op>, at: usize, pkt: crate::wire::Pkt },
+    /// C01: client object + server object over the simulated transport
+    Pair { cfg: crate::pair::PCfg, ops: Vec<crate::pair::POp> },
 }
 
 impl Case {
@@ -40,6 +42,7 @@ impl Case {
             Case::Fork { ops, cont, .. } => ops.len() + cont.len(),
             Case::Cell { .. } => 0,
             Case::Inject { ops, .. } => ops.len(),
+            Case::Pair { ops, .. } => ops.len(),
         }
     }
     /// the case with only the ops whose index is in `keep`
@@ -53,6 +56,7 @@ impl Case {
             }
             Case::Chunk { cfg, ops, burst, cuts } => Case::Chunk { cfg: cfg.clone(), ops: ops.iter().zip(keep).filter(|(_, k)| **k).map(|(o, _)| o.clone()).collect(), burst: *burst, cuts: cuts.clone() },
             Case::Cell { .. } => self.clone(),
+            Case::Pair { cfg, ops } => Case::Pair { cfg: cfg.clone(), ops: ops.iter().zip(keep).filter(|(_, k)| **k).map(|(o, _)| o.clone()).collect() },
             Case::Inject { cfg, ops, at, pkt } => {
                 let removed_before = keep[..*at.min(&keep.len())].iter().filter(|k| !**k).count();
                 Case::Inject { cfg: cfg.clone(), ops: ops.iter().zip(keep).filter(|(_, k)| **k).map(|(o, _)| o.clone()).collect(), at: at - removed_before, pkt: pkt.clone() }
@@ -72,6 +76,66 @@ impl Case {
     pub fn simpler_variants(&self) -> Vec<Case> {
         match self {
             Case::Alloc { .. } | Case::Cell { .. } | Case::Inject { .. } => vec![],
+            Case::Pair { cfg, ops } => {
+                use crate::pair::POp;
+                let mut out = vec![];
+                let mut push = |c: crate::pair::PCfg| {
+                    if c != *cfg {
+                        out.push(Case::Pair { cfg: c, ops: ops.clone() })
+                    }
+                };
+                macro_rules! off {
+                    ($f:ident) => {{
+                        let mut c = cfg.clone();
+                        c.$f = Default::default();
+                        push(c);
+                    }};
+                }
+                off!(pid32);
+                off!(any_roles);
+                off!(undet_server);
+                off!(c_auto_map);
+                off!(c_auto_replace);
+                off!(s_auto_map);
+                off!(s_auto_replace);
+                off!(vectored);
+                off!(fresh_server);
+                off!(ka);
+                off!(pingresp_to_ms);
+                off!(c_rm);
+                off!(c_tam);
+                off!(c_mps);
+                off!(s_rm);
+                off!(s_tam);
+                off!(s_mps);
+                off!(s_ska);
+                for (i, o) in ops.iter().enumerate() {
+                    let simpler = match o {
+                        POp::Deliver { to, n } if *n != 0 => Some(POp::Deliver { to: *to, n: 0 }),
+                        POp::Pub { side, qos, topic, alias, pad, fail } => {
+                            if *fail {
+                                Some(POp::Pub { side: *side, qos: *qos, topic: *topic, alias: *alias, pad: *pad, fail: false })
+                            } else if *pad != 0 {
+                                Some(POp::Pub { side: *side, qos: *qos, topic: *topic, alias: *alias, pad: 0, fail: false })
+                            } else if *alias != 0 {
+                                Some(POp::Pub { side: *side, qos: *qos, topic: *topic, alias: 0, pad: 0, fail: false })
+                            } else if *topic != 0 {
+                                Some(POp::Pub { side: *side, qos: *qos, topic: 0, alias: 0, pad: 0, fail: false })
+                            } else {
+                                None
+                            }
+                        }
+                        POp::Lose { keep_c, keep_s } if *keep_c != 0 || *keep_s != 0 => Some(POp::Lose { keep_c: 0, keep_s: 0 }),
+                        _ => None,
+                    };
+                    if let Some(n) = simpler {
+                        let mut o2 = ops.clone();
+                        o2[i] = n;
+                        out.push(Case::Pair { cfg: cfg.clone(), ops: o2 });
+                    }
+                }
+                out
+            }
             Case::Chunk { cfg, ops, burst, cuts } => {
                 // fewer cuts, earlier bursts
                 let mut out = vec![];
@@ -398,6 +462,7 @@ pub fn generate(prop: &str, rng: &mut Rng, tier: Tier, run: u64) -> (Case, Outco
         "C09" => return gen_c09(rng, tier, run),
         "C16" => return gen_c16(rng, tier, run),
         "C10" => return gen_c10(rng, tier, run),
+        "C01" => return gen_c01(rng, tier, run),
         "C11" => return gen_c11(rng, tier, run),
         "C17" => return gen_c17(rng, tier, run),
         _ => {}
@@ -549,6 +614,10 @@ fn fork_outcome(kind: ForkKind, cfg: &Cfg, ops: &[Op], cont: &[Op], mangle: Expo
             (cfg.clone(), cfg.clone(), ha, ops.to_vec())
         }
         ForkKind::Fresh => {
+            // the comparison is about a NEW session: the script starts with its handshake
+            if !(matches!(cont.first(), Some(Op::Connect { .. })) && matches!(cont.get(1), Some(Op::Connack { sp: false, rc: 0 }))) {
+                return Outcome::default();
+            }
             let mut ha = ops.to_vec();
             ha.push(Op::Close { partial: 0 });
             (cfg.clone(), cfg.clone(), ha, vec![])
@@ -749,6 +818,7 @@ fn cell_outcome(prop: &str, index: usize) -> Outcome {
             return o;
         }
         let r = matrix::run_c11_cell(&cells[index]);
+        o.stats.merge(&r.stats);
         o.viol = r.viol;
         o.log = r.log;
         o.log.push(r.desc);
@@ -760,6 +830,7 @@ fn cell_outcome(prop: &str, index: usize) -> Outcome {
     } else {
         let cells = matrix::c17_cells();
         let r = matrix::run_c17_cell(&cells[index]);
+        o.stats.merge(&r.stats);
         o.viol = r.viol;
         o.log = r.log;
         o.log.push(r.desc);
@@ -908,6 +979,46 @@ fn gen_c17(rng: &mut Rng, tier: Tier, run: u64) -> (Case, Outcome) {
     (Case::Fork { kind: ForkKind::Version, cfg, ops: vec![], cont: ops, mangle: ExportMangle::None }, o)
 }
 
+fn pair_outcome(p: crate::pair::Pair, ops: &[crate::pair::POp]) -> Outcome {
+    let kinds: Vec<u8> = ops.iter().map(crate::pair::pop_kind).collect();
+    let mut o = Outcome { viol: p.violation(), shape: h64(&kinds), steps: p.steps + p.ends[0].w.step as u64 + p.ends[1].w.step as u64, sim_ms: p.now_ms, ..Default::default() };
+    o.stats.merge(&p.stats);
+    o.stats.merge(&p.ends[0].w.stats);
+    o.stats.merge(&p.ends[1].w.stats);
+    o.nontrivial = o.stats.round_trips >= 1;
+    for (k, v) in &p.faults {
+        *o.faults.entry(k.to_string()).or_insert(0) += v;
+    }
+    // interleave the two endpoint logs by step order is not needed: both are printed
+    o.log = p.ends[0].w.log.iter().cloned().chain(p.ends[1].w.log.iter().cloned()).collect();
+    o
+}
+
+fn gen_c01(rng: &mut Rng, tier: Tier, run: u64) -> (Case, Outcome) {
+    let cfg = crate::pair::gen_pcfg(rng, run % 4 != 0);
+    let maxlen = if tier == Tier::Quick { 80 } else { 250 };
+    let len = if rng.chance(1, 4) { rng.range(4, 16) } else { rng.range(8, maxlen) };
+    let mut p = crate::pair::Pair::new(cfg.clone());
+    let mut ops = vec![];
+    let mut states = vec![];
+    for _ in 0..len {
+        let op = crate::pair::gen_pop(&p, rng);
+        ops.push(op.clone());
+        p.exec(&op);
+        states.push(h64(&(p.ends[0].w.m.st as u8, p.ends[1].w.m.st as u8, p.ends[0].w.m.out.len().min(3), p.ends[1].w.m.out.len().min(3), p.ends[0].w.m.store.len().min(3), p.ends[1].w.m.store.len().min(3), p.ends[0].w.m.inq2.len().min(2), p.ends[1].w.m.inq2.len().min(2), p.up, (p.pipe[0].len().min(1), p.pipe[1].len().min(1)), crate::pair::pop_kind(&op))));
+        if p.failed() {
+            break;
+        }
+    }
+    if !p.failed() {
+        ops.push(crate::pair::POp::Quiesce);
+        p.exec(&crate::pair::POp::Quiesce);
+    }
+    let mut o = pair_outcome(p, &ops);
+    o.states = states;
+    (Case::Pair { cfg, ops }, o)
+}
+
 fn merge_o(o: &mut Outcome, f: &Outcome) {
     o.stats.merge(&f.stats);
     for (k, v) in &f.faults {
@@ -933,6 +1044,16 @@ pub fn replay(_prop: &str, case: &Case) -> Outcome {
         }
         Case::Fork { kind, cfg, ops, cont, mangle } => fork_outcome(*kind, cfg, ops, cont, *mangle),
         Case::Cell { prop, index } => cell_outcome(prop, *index),
+        Case::Pair { cfg, ops } => {
+            let mut p = crate::pair::Pair::new(cfg.clone());
+            for op in ops {
+                p.exec(op);
+                if p.failed() {
+                    break;
+                }
+            }
+            pair_outcome(p, ops)
+        }
         Case::Inject { cfg, ops, at, pkt } => inject_outcome(cfg, ops, *at, pkt),
         Case::Alloc { case } => alloc_outcome(case),
         Case::Solo { cfg, ops } => {
